@@ -130,6 +130,10 @@ async fn wait_web(web: u16) -> bool {
 }
 
 fn spawn_node(dir: &Path, name: &str, port: u16, web: u16, role: &[String]) -> Child {
+    spawn_node_env(dir, name, port, web, role, &[])
+}
+
+fn spawn_node_env(dir: &Path, name: &str, port: u16, web: u16, role: &[String], extra: &[(String, String)]) -> Child {
     std::fs::create_dir_all(dir).expect("data dir");
     let mut cmd = Command::new(server_bin());
     cmd.args(role).arg("--instance-name").arg(name);
@@ -148,6 +152,9 @@ fn spawn_node(dir: &Path, name: &str, port: u16, web: u16, role: &[String]) -> C
         .stdin(Stdio::piped())
         .stdout(Stdio::null())
         .stderr(Stdio::null());
+    for (k, v) in extra {
+        cmd.env(k, v);
+    }
     cmd.spawn().expect("spawn worterbuch")
 }
 
@@ -282,6 +289,7 @@ async fn run_case(root: PathBuf, ops: Vec<String>) -> Vec<String> {
     let mut conns: HashMap<usize, Conn> = HashMap::new();
     let mut cids: HashMap<usize, String> = HashMap::new();
     let mut marker = 0u64;
+    let mut mode = String::from("Json");
     let mut out = vec![];
     let subst = |text: &str, cids: &HashMap<usize, String>| {
         let mut t = text.to_owned();
@@ -311,6 +319,64 @@ async fn run_case(root: PathBuf, ops: Vec<String>) -> Vec<String> {
                     let _ = child.wait();
                 }
                 res
+            }
+            "node" | "start" => {
+                // a standalone server with the given persistence backend (C18); `start` opens the same directory again
+                if t[0] == "node" {
+                    mode = t[1].to_owned();
+                }
+                let extra = vec![("WORTERBUCH_USE_PERSISTENCE".to_owned(), "true".to_owned()), ("WORTERBUCH_PERSISTENCE_MODE".to_owned(), mode.clone())];
+                let mut res = "unreachable".to_owned();
+                for _ in 0..4 {
+                    let port = free_port();
+                    let web = free_port();
+                    let dir = root.join("node");
+                    let mut child = spawn_node_env(&dir, "node", port, web, &[], &extra);
+                    if connect(port).await.is_some() && wait_web(web).await {
+                        leader = Some(Node { child, port, web, dir, name: "node".to_owned() });
+                        res = "ok".to_owned();
+                        break;
+                    }
+                    let _ = child.kill();
+                    let _ = child.wait();
+                }
+                res
+            }
+            "kill" | "stop" => {
+                conns.clear();
+                if let Some(mut l) = leader.take() {
+                    if t[0] == "kill" {
+                        let _ = l.child.kill();
+                        let _ = l.child.wait();
+                    } else {
+                        stop_gracefully(&mut l.child);
+                    }
+                }
+                "ok".to_owned()
+            }
+            "settle" => {
+                tokio::time::sleep(Duration::from_millis(300)).await;
+                "ok".to_owned()
+            }
+            "burst" => {
+                // n sets sent back to back, nothing awaited
+                let c: usize = t[1].parse().expect("c");
+                let n: usize = t[2].parse().expect("n");
+                let prefix = unhex(t[3]);
+                if let Some(conn) = conns.get_mut(&c) {
+                    let mut text = String::new();
+                    for i in 0..n {
+                        conn.tid += 1;
+                        text.push_str(&json!({"set": {"transactionId": conn.tid, "key": format!("{prefix}/{i}"), "value": i}}).to_string());
+                        text.push('\n');
+                    }
+                    conn.wr.write_all(text.as_bytes()).await.ok();
+                    conn.wr.flush().await.ok();
+                    if t.len() > 4 {
+                        tokio::time::sleep(Duration::from_micros(t[4].parse().expect("us"))).await;
+                    }
+                }
+                "ok".to_owned()
             }
             "join" => {
                 let mut res = "unreachable".to_owned();
